@@ -7,6 +7,7 @@ package main
 import (
 	"encoding/json"
 	"fmt"
+	"math"
 	"math/rand"
 	"strconv"
 	"strings"
@@ -54,13 +55,17 @@ var gridNums = []string{"0", "1", "-1", "2", "3", "7", "-7", "10", "2147483647",
 	"4611686018427387904", "9007199254740992", "9007199254740993", "9223372036854775807", "-9223372036854775808",
 	"0.5", "1.5", "2.5", "-2.5", "-0.5", "0.1", "3.7", "1e19", "1e308", "5e-324", "1e-7", "9223372036854775808", "1e21",
 	"0.9999999999", "2.9999999999", "1E2", "-1E3", "5E-1", "1.0E2", "-0", "0.0", "1e400",
-	bigDigits, "-" + bigDigits, "1e-400", "123456789012345678901234567890", "0.0000000000000000000000000000001"}
+	bigDigits, "-" + bigDigits, "1e-400", "123456789012345678901234567890", "0.0000000000000000000000000000001", digits309, "-" + digits309, maxFloatDigits, digits309 + "0", maxFloatDigits + ".9"}
 
 // longMantissaE: out of float64 range through a long mantissa and a short exponent.
 var longMantissaE = "1" + strings.Repeat("0", 250) + "e99"
 
 // bigDigits is a syntactically valid JSON number without exponent that is outside float64 range.
 var bigDigits = "1" + strings.Repeat("0", 400)
+
+// digits309 has as many digits as MaxFloat64 written in full and is beyond it; maxFloatDigits is MaxFloat64 itself.
+var digits309 = "2" + strings.Repeat("0", 308)
+var maxFloatDigits = strconv.FormatFloat(math.MaxFloat64, 'f', -1, 64)
 
 func numReprs(text string) []any {
 	var out []any
@@ -195,7 +200,8 @@ func gridSubscript() []group {
 	// around the int32 limits and around integers
 	four := []any{float64(10), float64(20), float64(30), float64(40)}
 	for _, t := range []string{"2147483647", "2147483647.5", "2147483647.4", "2147483648", "2147483648.5", "-2147483648", "-2147483648.5", "-2147483648.9", "-2147483649", "-2147483649.5",
-		"0", "1", "1.9", "0.5", "-0.5", "-0.9999999999", "2.9999999999", "1e0", "1E0", "3", "4", "1e400", "-1e400", bigDigits, "9223372036854775808"} {
+		"0", "1", "1.9", "0.5", "-0.5", "-0.9999999999", "2.9999999999", "1e0", "1E0", "3", "4", "1e400", "-1e400", bigDigits, "9223372036854775808",
+		"0.2e1", "1.5e1", "30.0e-1", "0.275E1", "2.75", "3e0", "25e-1", "0.1e1", "10.0e-1", "0.03e2", "-0.5e0", "-5.0e-1", "1.0", "2.0e0", "00.2e1"} {
 		for _, v := range numReprs(t) {
 			vars := map[string]any{"b": v}
 			doc := map[string]any{"a": four, "b": v}
@@ -203,6 +209,18 @@ func gridSubscript() []group {
 				for _, sub := range []string{"$b", "$b to 0", "0 to $b", "1 to $b", "$b to last", "$b, last", "last, $b"} {
 					gs = append(gs, group{mode + "$.a[" + sub + "]", doc, vars}, group{mode + "$.a[" + strings.ReplaceAll(sub, "$b", "$.b") + "]", doc, nil})
 				}
+			}
+		}
+	}
+	// `last` read inside a filter that hangs off another primary within the subscript
+	lastDocs := []any{[]any{[]any{float64(10), float64(20), float64(30)}, []any{float64(40), float64(50), float64(60)}}, map[string]any{"a": []any{"p", "q", "r"}, "k": float64(2), "o": []any{"first", "second"}},
+		[]any{float64(0), float64(1), float64(2)}, map[string]any{"a": []any{"p", "q"}, "k": []any{float64(0), float64(1), float64(5)}, "o": []any{"x", "y", "z"}}}
+	lastVars := map[string]any{"opts": []any{float64(0), float64(1), float64(2)}, "i": float64(1)}
+	for _, t := range []string{"$[0 to last][$opts[*] ? (@ == last)]", "$[*][$opts[*] ? (@ == last)]", "$.a[$.k ? (@ <= last)]", "$.a[$i ? (@ <= last)]", "$[$[*] ? (@ == last)]", "$.a[$.k[*] ? (@ == last)]",
+		"$.o[last, $.a[$.k[*] ? (@ == last)]]", "$.a[(1) ? (@ < last)]", "$.a[$opts[*] ? (@ == last - 1)]", "$[last][$opts[*] ? (@ < last) ? (@ > 0)]", "$.a[last ? (@ == 2)]", "$.a[$.k ? (exists(@ ? (@ == last)))]"} {
+		for _, d := range lastDocs {
+			for _, mode := range []string{"", "strict "} {
+				gs = append(gs, group{mode + t, d, lastVars})
 			}
 		}
 	}
@@ -316,7 +334,8 @@ func gridAny() []group {
 }
 
 func gridKleene() []group {
-	operand := []string{"(1 == 1)", "(1 == 2)", "(1 == \"a\")", "($missing == 1)", "(@.a == 1)", "exists(@.a)", "(@.a > 0 && @.b > 0)", "(@.a starts with \"x\")"}
+	operand := []string{"(1 == 1)", "(1 == 2)", "(1 == \"a\")", "($missing == 1)", "(@.a == 1)", "exists(@.a)", "(@.a > 0 && @.b > 0)", "(@.a starts with \"x\")",
+		"(@.a like_regex \"^x\")", "(\"abc\" like_regex \"^x\")", "(\"xa\" like_regex \"^x\")"}
 	docs := []any{map[string]any{"a": float64(1), "b": float64(2)}, map[string]any{"a": "x"}, map[string]any{}, float64(1), []any{map[string]any{"a": float64(1)}, map[string]any{"a": float64(0)}}}
 	var gs []group
 	for _, a := range operand {
@@ -331,6 +350,23 @@ func gridKleene() []group {
 						gs = append(gs, group{mode + strings.ReplaceAll(t, "@", "$"), d, nil}, group{mode + "$ ? (" + t + ")", d, nil})
 						gs = append(gs, group{mode + "$ ? (!(" + t + "))", d, nil}, group{mode + "$ ? ((" + t + ") is unknown)", d, nil})
 					}
+				}
+			}
+		}
+	}
+	// range-shaped conditions over sequences: each bound may be met by a different item
+	rdocs := []any{map[string]any{"a": []any{float64(0), float64(10)}}, map[string]any{"a": []any{float64(0.5), float64(7.5), "x"}}, map[string]any{"a": []any{float64(3)}},
+		map[string]any{"a": []any{float64(0), float64(3), float64(10)}}, map[string]any{"a": []any{}}, map[string]any{"a": float64(3)}, map[string]any{"a": []any{float64(10), float64(0)}},
+		map[string]any{"a": []any{json.Number("0"), json.Number("10")}}, map[string]any{"a": []any{int64(0), int64(10)}}}
+	for _, x := range []string{"@.a[*]", "@.a", "@.a[0 to last]", "@.*[*]"} {
+		for _, r := range []string{"%s >= 1 && %s <= 5", "%s <= 5 && %s >= 1", "%s > 1 && %s < 5", "%s >= 1 && %s < 5", "%s >= 1.0 && %s <= 5", "%s >= 1 || %s <= 5", "%s == 0 && %s == 10", "%s >= 1 && %s <= $hi"} {
+			c := fmt.Sprintf(r, x, x)
+			for _, mode := range []string{"", "strict "} {
+				for _, d := range rdocs {
+					vars := map[string]any{"hi": float64(5)}
+					top := strings.ReplaceAll(c, "@", "$")
+					gs = append(gs, group{mode + top, d, vars}, group{mode + "$ ? (" + c + ")", d, vars}, group{mode + "$ ? (!(" + c + "))", d, vars},
+						group{mode + "(" + top + ") is unknown", d, vars}, group{mode + "!(" + top + ") || !(" + top + ")", d, vars})
 				}
 			}
 		}
@@ -505,6 +541,7 @@ func gridUnderAny() []group {
 		[]any{map[string]any{"a": float64(1)}, map[string]any{"a": map[string]any{"b": float64(1)}}, []any{map[string]any{"a": float64(2)}}},
 		map[string]any{"k": map[string]any{"a": []any{map[string]any{"b": float64(1)}, float64(3)}}, "a": map[string]any{"b": map[string]any{"c": float64(1)}}},
 		[]any{float64(1), "x", []any{"1"}},
+		map[string]any{"k": []any{json.Number("1"), json.Number("1e400"), "x"}, "a": json.Number("-1E+999")},
 	}
 	var gs []group
 	for _, pre := range prefixes {
@@ -542,6 +579,8 @@ func gridDatetime() []group {
 					texts = append(texts, fmt.Sprintf("$[*] ? (@.%s %s $[%d].%s)", m1, op, j, m2))
 				}
 				texts = append(texts, fmt.Sprintf("$[%d].%s == $[%d].%s", j, m1, j, m2), fmt.Sprintf("$[%d].%s < $[%d].%s", j, m1, j, m2))
+				// many pairs in one predicate: a pair that needs the time zone comes before or after a pair that decides
+				texts = append(texts, fmt.Sprintf("$[*].%s < $[%d].%s", m1, j, m2), fmt.Sprintf("$ ? (@[*].%s >= $[%d].%s)", m1, j, m2))
 			}
 		}
 		texts = append(texts, fmt.Sprintf("$[%d].datetime().type()", j), fmt.Sprintf("$[%d].timestamp_tz().string()", j), fmt.Sprintf("$[%d].timestamp(2).string()", j),
@@ -737,6 +776,13 @@ func gridInteract() []group {
 			cond2 = fmt.Sprintf("@.n == %d && exists(@.c ? (%s))", lvl, cond2)
 		}
 		add("$ ? ("+cond2+")", doc, nil)
+	}
+	// (12) an arithmetic node with a following step, probed: the step's verdict on the first operand item must not decide
+	for _, d := range []any{map[string]any{"a": []any{float64(1), float64(5)}}, map[string]any{"a": []any{float64(5), float64(1)}}, []any{float64(1), float64(-5), float64(2)}, map[string]any{"a": []any{float64(1), "x", float64(5)}}, map[string]any{"a": float64(5)}, []any{}} {
+		for _, t := range []string{"(-$.a[*]) ? (@ < -3)", "(+$.a[*]) ? (@ > 3)", "(-$[*]).abs() ? (@ > 3)", "(+$[*]).abs() ? (@ > 3)", "(-$.a[*]).type()", "(-$[*]) ? (@ > 3).abs()", "(-$.a[*]) ? (@ < -3) ? (@ < 0)",
+			"($.a[0] + 1) ? (@ > 3)", "($.a[1] * 2) ? (@ > 3)", "exists((-$.a[*]) ? (@ < -3))", "$ ? (exists((-@.a[*]) ? (@ < -3)))", "(-$.a[*]).double() ? (@ < -3)", "(-$.a[*])[0] ? (@ < -3)"} {
+			add(t, d, nil)
+		}
 	}
 	// (11) the filter item is a json.Number whose text is not what its value prints as: the condition sees the text
 	jn := func(ts ...string) []any {
